@@ -436,6 +436,10 @@ class XMLReader(object):
             self.error("Attribute not supported, ignoring '%s=%s' " % (k, val), root)
 
         for node in root:
+            # Processing instructions and entity references are no odML elements.
+            if not isinstance(node.tag, str):
+                continue
+
             node.tag = node.tag.lower()
             self.is_valid_argument(node.tag, fmt, root, node)
             if node.tag in fmt.arguments_keys:
